@@ -482,7 +482,7 @@ def sanitize(module):
         return ('TPL', tuple(out))
 
     def name_ok(n):
-        return {'async': 'asyncs', 'await': 'awaits'}.get(n, n)
+        return n
 
     def decl(d, path, siblings):
         k = d[0]
@@ -517,7 +517,7 @@ def sanitize(module):
             fp = {p for p, _ in d[1][1]} if d[1] else set()
             return ('func', ren_tpl(d[1], plain_lists=True), ren_ret(d[2], fp), name_ok(d[3]), ren_args(d[4], fp))
         if k == 'var':
-            return ('var', d[1], d[2], None if path else d[3])
+            return d
         if k == 'typedef':
             return d
         return d
